@@ -80,7 +80,11 @@ class CanDynamicSchema: public ICanSchema {
 
     private:
         std::optional<std::string> GetMsgName(std::uint16_t sid, const std::array<char,4> bus_name) {
-            std::string bus_name_str(bus_name.begin(), std::find(bus_name.begin(), bus_name.end(), '\0'));
+            auto bus_name_end = bus_name.end();
+            while (bus_name_end != bus_name.begin() && *(bus_name_end - 1) == '\0') {
+                --bus_name_end;
+            }
+            std::string bus_name_str(bus_name.begin(), bus_name_end);
 
             auto impls = dynamic_schema_.GetImpls();
             for (const auto& impl: impls) {
